@@ -463,7 +463,7 @@ func writeReplay(id string, row Row, params map[string]int, f ssaexec.AssertFail
 	rf := ReplayFile{Property: id, Dir: row.Dir, Harness: row.Func, Params: params, Vector: f.Vector, Names: f.Names, Expect: f.ID, Kind: f.Kind, What: what, Pos: f.Pos}
 	b, _ := json.MarshalIndent(rf, "", " ")
 	h := sha1.Sum(b)
-	dir := filepath.Join(verifDir, "replays")
+	dir := envOr("VERIF_REPLAY_DIR", filepath.Join(verifDir, "replays"))
 	os.MkdirAll(dir, 0o755)
 	p := filepath.Join(dir, fmt.Sprintf("%s-%x.json", id, h[:6]))
 	os.WriteFile(p, b, 0o644)
@@ -629,6 +629,7 @@ func writeEvidence(id, tier string, seed int64, spec *PropSpec, results []*JobRe
 		ev.Assumptions = []string{}
 	}
 	b, _ := json.MarshalIndent(ev, "", " ")
-	os.MkdirAll(filepath.Join(verifDir, "evidence"), 0o755)
-	os.WriteFile(filepath.Join(verifDir, "evidence", id+".json"), b, 0o644)
+	evd := envOr("VERIF_EVIDENCE_DIR", filepath.Join(verifDir, "evidence"))
+	os.MkdirAll(evd, 0o755)
+	os.WriteFile(filepath.Join(evd, id+".json"), b, 0o644)
 }
